@@ -24,8 +24,11 @@ def expr_form(rng, val, R, rel_to_base=5):
         forms.append("BASE + %d" % (val - rel_to_base) if val >= rel_to_base else str(val))
         forms.append("%d_%s" % (val, R))
     else:
-        forms.append("-(%d)" % (-val))
-        forms.append("BASE - %d" % (rel_to_base - val))
+        if -val not in (2**7, 2**15, 2**31, 2**63):       # `-(128)` in an i8: the literal itself is out of range
+            forms.append("-(%d)" % (-val))
+        bits = int(R[1:]) if R[1:].isdigit() else 64
+        if rel_to_base - val <= 2 ** (bits - 1) - 1:      # `5_i8 - 133`: the subtrahend itself has to fit
+            forms.append("BASE - %d" % (rel_to_base - val))
         forms.append("!%d" % (-val - 1))                   # two's complement: !k == -k - 1
         forms.append("(%d)" % val)
     return rng.choice(forms)
@@ -62,6 +65,15 @@ def repr_def(rng, did, n=None, repr_=None, anchored=None, kinds="mixed", generic
                     cand = rng.randint(max(lo, -60), -1)
                 else:
                     cand = rng.choice([rng.randint(0, 20), rng.randint(0, min(hi, 200)), rng.choice([1, 2, 4, 8, 16, 64])])
+                # the limits of the type themselves: MAX on the last variant (nothing follows it), MIN on the first
+                # (only where the value fits the specification's integers: narrow reprs, or relative to the anchor)
+                fits = (repr_ in NARROW) or anchored
+                if fits and i == n - 1 and _ == 0 and rng.random() < 0.2 and (not anchored or "MAX" in anchor_rs) and hi not in used:
+                    cur = hi
+                    break
+                if fits and i == 0 and _ == 0 and lo < 0 and rng.random() < 0.2 and (not anchored or "MIN" in anchor_rs):
+                    cur = lo
+                    break
                 # the run of implicit successors must stay free: keep a gap
                 if all(abs(cand - u) > 0 for u in used) and lo <= cand <= hi - 12:
                     cur = cand
